@@ -9,8 +9,15 @@ for f in ("/tmp/mut6/final6.json", "/tmp/mut6/none.json"):
     if os.path.exists(f):
         res.update(json.load(open(f)))
 KEEP = {
+ "C04-m1": "compose-locks-path-instead-of-destination", "C07-m1": "media-download-outside-object-lock", "C07-m2": "memstore-getmeta-shares-metadata-map",
+ "C08-m1": "deletetable-unregisters-before-draining-requests", "C08-m2": "settablemeta-after-family-purge",
+ "C09-m1": "filestore-delete-requires-sidecar", "C09-m2": "filestore-copy-clears-destination-first",
+ "C12-m1": "checkandmutate-deferred-updaterow-on-error", "C12-m2": "copyrow-aliases-cells-filtercells-in-place",
+ "C14-m2": "update-only-modification-not-persisted", "C15-m1": "memstore-copy-shares-metadata-map", "C15-m2": "compose-buffer-from-pool-aliased-by-memstore",
+ "C18-m1": "paged-leveldb-scan-skips-first-row-of-next-page",
 }
 RERUN = {
+ "C04-m1": {"C07": 1}, "C14-m2": {"C08": 1}, "C08-m1": {"C08": 1}, "C18-m1": {"C18": 1},
 }
 kept = []
 for name, slug in sorted(KEEP.items()):
